@@ -18,6 +18,11 @@ OBLIGATIONS.append(dict(
     bounds="<= 3 passes, arbitrary error/warning counts and repass request per pass, any combination of code/share/macro outputs",
     assumes=["the per-pass assembler run is a stub leaving arbitrary ErrorCount/WarnCount/Repass", "frame assumption: every other callee of AssembleFile (module init, listing, tables) has no effect on ErrorCount/Repass/GlobErrFlag/output names; their bodies are 'return nondet'",
              "file system: ghost exists-bit per output name driven by OpenFile/fopen/unlink"]))
-META = dict(outside=["main()'s final return GlobErrFlag ? 2 : 0 (one statement, read)", "-E redirection and -q text (formatting)",
+OBLIGATIONS.append(dict(
+    name="assemblegroup", src="asmfile.c", include=["as.c"], units=["asmdef.c"], stubs=["fmt_off.c"], defs=["STRINGSIZE=16", "FMT_OFF_NO_PRINTF", "K_GROUP"],
+    cuts={"as.c": ["ProcessFile", "AssembleFile_InitPass", "AssembleFile_ExitPass", "AssembleFile"]}, nobody_mode="nondet", unwind=20, unwind_fn={"harness": 8},
+    functions=["as.c:AssembleGroup"], bounds="one source-file argument matching 0..3 files, each failing or not, failure mark set or clear on entry",
+    assumes=["AssembleFile replaced by its contract (obligation assemblefile): sets the failure mark on error, never clears it", "DirScan calls the callback once per matching file"]))
+META = dict(outside=["main()'s loop over the arguments and final return GlobErrFlag ? 2 : 0 (read; the single GlobErrFlag = False in main() precedes the loop)", "-E redirection and -q text (formatting)",
                      "that every error site of the ~100 code generators goes through WrError*"],
             assumptions=["malloc never fails"])
